@@ -89,8 +89,8 @@ func (r *Run) retCanon(fn *Func, path *Path) []string {
 				if id, ok := ast.Unparen(res).(*ast.Ident); ok && strings.HasPrefix(c, "local:") {
 					if rhs, idx, ok := lastDefOnPath(re.Fn, path, k, re.Fn.Info().Uses[id]); ok && rhs != nil {
 						c = r.P.Canon(re.Fn, rhs)
-						if _, isIdx := ast.Unparen(rhs).(*ast.IndexExpr); isIdx {
-							c = fmt.Sprintf("%s#%d", c, idx)
+						if _, isIdx := ast.Unparen(rhs).(*ast.IndexExpr); isIdx && idx > 0 {
+							c = fmt.Sprintf("%s#%d", c, idx) // (v, ok := m[k]: v is m[k] itself, ok its presence)
 						}
 					}
 				}
@@ -1612,6 +1612,20 @@ func ruleFramePair(r *Run) {
 		}
 		r.Floor("E6", "calls of the stored frame cancel", n, 1)
 	}
+	// how Close signals the worker: a send needs room in the channel, close(ch) does not
+	signalsByClose := false
+	if cf := r.modelFunc("models.(*Session).Close"); cf != nil {
+		for _, path := range r.Paths(cf) {
+			r.at(&path)
+			for _, ev := range path.Events {
+				if ev.Kind == EvCall && ev.Call != nil && len(ev.Call.Args) == 1 {
+					if b, isB := ev.Callee.(*types.Builtin); isB && b.Name() == "close" && r.P.Canon(ev.Fn, ev.Call.Args[0]) == "recv.closeFrameChan" {
+						signalsByClose = true
+					}
+				}
+			}
+		}
+	}
 	// NewSession: stop channel has room for the one stop signal
 	if fn := r.modelFunc("models.NewSession"); fn != nil {
 		ok := true
@@ -1630,6 +1644,9 @@ func ruleFramePair(r *Run) {
 							if c, isC := intConstVal(vfn.Info(), call.Args[1]); isC && c >= 1 {
 								good = true
 							}
+						}
+						if call, isCall := ast.Unparen(v).(*ast.CallExpr); isCall && signalsByClose && len(call.Args) >= 1 {
+							good = true // closed, never sent on: no room needed
 						}
 					}
 				}
@@ -1661,6 +1678,11 @@ func ruleFramePair(r *Run) {
 				if ev.Kind == EvChanOp && ev.Send && r.P.Canon(ev.Fn, ev.Chan) == "recv.closeFrameChan" {
 					s++
 					r.CheckT("E6", fn.Name+":signal-not-droppable", !ev.NonBlocking, ev.Pos, &path, "the stop signal is sent with a plain send (a select/default would drop it while the worker is dispatching a frame, and the worker of an ended session would run forever)")
+				}
+				if ev.Kind == EvCall && ev.Call != nil && len(ev.Call.Args) == 1 {
+					if b, isB := ev.Callee.(*types.Builtin); isB && b.Name() == "close" && r.P.Canon(ev.Fn, ev.Call.Args[0]) == "recv.closeFrameChan" {
+						s++ // closing the stop channel (once, under the Once) is a stop signal that cannot be dropped
+					}
 				}
 				if ev.Kind == EvCall {
 					if f, ok := ev.Callee.(*types.Func); ok && f.FullName() == "(*time.Ticker).Stop" {
